@@ -47,6 +47,19 @@ type WL struct {
 
 func gen(r *rand.Rand) WL {
 	w := WL{DB: stor.GenDB(r, 3, 8, 12)}
+	if x := r.IntN(3000); x < 31 {
+		// many distinct kind combinations: a few hundred now and then, more than 2^16 rarely
+		n := 257 + r.IntN(300)
+		if x == 0 {
+			n = 65536 + 1 + r.IntN(40)
+		}
+		w.DB = stor.GenWide(r, n)
+		w.Opts = stor.GenOpts(r, n)
+		w.Opts.Shard, w.Opts.Batch = []int{n/3 + 1, n + 1, 1000}[r.IntN(3)], []int{n/2 + 1, n + 1, 1000}[r.IntN(3)]
+		w.Path, w.LoadBatch = "dir", []int{1000, n + 1}[r.IntN(2)]
+		w.Edit = []string{"delnode", "addedge", "kind", "rewire", "none"}[r.IntN(5)]
+		return w
+	}
 	n := 0
 	for _, g := range w.DB.Graphs {
 		n = max(n, len(g.Nodes), len(g.Rels))
@@ -137,6 +150,7 @@ func exec(t *testing.T, w WL, cfg simrt.Config) simh.Outcome {
 		return o
 	}
 	cryptotest.SetGlobalRandom(t, cfg.Seed)
+	w.DB = stor.Expand(w.DB)
 	base, err := os.MkdirTemp(scratch(), "run-")
 	if err != nil {
 		return fail("infra", err.Error())
@@ -211,6 +225,17 @@ func exec(t *testing.T, w WL, cfg simrt.Config) simh.Outcome {
 				return fail("oracle:manifest", fmt.Sprintf("fragment %s holds %d records with shard size %d", f.Path, f.Count, w.Opts.Shard))
 			}
 		}
+	}
+	for _, g := range w.DB.Graphs {
+		if len(g.Nodes) > 256 {
+			o.Counters["graphs_with_over_256_kind_combinations"]++
+		}
+		if len(g.Nodes) > 65536 {
+			o.Counters["graphs_with_over_65536_kind_combinations"]++
+		}
+	}
+	if d := metricsDescribe(m, w.DB); d != "" {
+		return fail("oracle:manifest_metrics", d)
 	}
 	loadDir := out
 	switch w.Path {
@@ -364,6 +389,81 @@ func graphMetrics(g *simdb.GraphData) string {
 		ht[in[n.ID]+out[n.ID]]++
 	}
 	return fmt.Sprint(len(g.Nodes), len(g.Rels), nodeKinds, edgeKinds, hi, ho, ht, endpoint)
+}
+
+// counts is the multiset of a histogram's counts: what a histogram says independent of how its keys
+// are spelled.
+func counts[K comparable, V int | int64](h map[K]V) string {
+	var c []int64
+	for _, v := range h {
+		c = append(c, int64(v))
+	}
+	sort.Slice(c, func(i, j int) bool { return c[i] < c[j] })
+	return fmt.Sprint(len(c), c)
+}
+
+// metricsDescribe: the metrics block of a fresh dump describes the dumped graphs - node and edge
+// counts, and as many histogram classes, each as populous, as the source has (keys are not compared).
+func metricsDescribe(m retriever.Manifest, spec stor.DBSpec) string {
+	if m.Metrics == nil {
+		return ""
+	}
+	byName := map[string]retriever.GraphMetrics{}
+	for _, gm := range m.Metrics.Graphs {
+		byName[gm.Name] = gm
+	}
+	for _, g := range spec.Graphs {
+		gm, ok := byName[g.Name]
+		if !ok {
+			return fmt.Sprintf("the metrics block has no entry for graph %q", g.Name)
+		}
+		kindsOf := map[uint64]string{}
+		nodeKinds, edgeKinds, endpoint := map[string]int{}, map[string]int{}, map[string]int{}
+		in, out := map[uint64]int{}, map[uint64]int{}
+		for _, n := range g.Nodes {
+			ks := append([]string{}, n.Kinds...)
+			sort.Strings(ks)
+			kindsOf[n.ID] = strings.Join(ks, "\x00")
+			nodeKinds[kindsOf[n.ID]]++
+		}
+		for _, r := range g.Rels {
+			out[r.Start]++
+			in[r.End]++
+			edgeKinds[r.Kind]++
+			endpoint[kindsOf[r.Start]+"\x01"+r.Kind+"\x01"+kindsOf[r.End]]++
+		}
+		hi, ho, ht := map[int]int{}, map[int]int{}, map[int]int{}
+		for _, n := range g.Nodes {
+			hi[in[n.ID]]++
+			ho[out[n.ID]]++
+			ht[in[n.ID]+out[n.ID]]++
+		}
+		for _, c := range []struct {
+			what      string
+			got, want string
+		}{
+			{"node_count", fmt.Sprint(gm.NodeCount), fmt.Sprint(len(g.Nodes))},
+			{"edge_count", fmt.Sprint(gm.EdgeCount), fmt.Sprint(len(g.Rels))},
+			{"node_kind_histogram", counts(gm.NodeKindHistogram), counts(nodeKinds)},
+			{"edge_kind_histogram", counts(gm.EdgeKindHistogram), counts(edgeKinds)},
+			{"endpoint_kind_histogram", counts(gm.EndpointKindHistogram), counts(endpoint)},
+			{"in_degree_histogram", counts(gm.InDegreeHistogram), counts(hi)},
+			{"out_degree_histogram", counts(gm.OutDegreeHistogram), counts(ho)},
+			{"total_degree_histogram", counts(gm.TotalDegreeHistogram), counts(ht)},
+		} {
+			if c.got != c.want {
+				return fmt.Sprintf("graph %q: the manifest's %s has (classes, sorted counts) %s, the dumped graph %s", g.Name, c.what, trunc(c.got), trunc(c.want))
+			}
+		}
+	}
+	return ""
+}
+
+func trunc(s string) string {
+	if len(s) > 300 {
+		return s[:300] + "..."
+	}
+	return s
 }
 
 func edit(db *simdb.DB, w WL) bool {
